@@ -199,6 +199,64 @@ theorem truncateAndRound_length (ds : List Nat) (o : WOpts) (hds : 1 ≤ ds.leng
         | (refine ⟨by simp; omega, by simp; omega, ?_, by simp⟩; intro m hm'; simp; omega)
         | (refine ⟨hru.1, by omega, ?_, hrc⟩; intro m hm'; omega)
 
+/-! ## the trim-after-rounding step (fix C14-decimal-trim-after-rounding) -/
+
+theorem trimSci_cases (o : WOpts) (ds : List Nat) : trimSci o ds = ds ∨ trimSci o ds = ds.take 1 := by
+  unfold trimSci; split <;> simp
+
+theorem trimPos_cases (o : WOpts) (leading : Nat) (ds : List Nat) :
+    trimPos o leading ds = ds ∨ (trimPos o leading ds = ds.take leading ∧ leading < ds.length) := by
+  unfold trimPos; split
+  · rename_i h; exact Or.inr ⟨rfl, h.2.1⟩
+  · exact Or.inl rfl
+
+theorem trimSci_length (o : WOpts) (ds : List Nat) (h : 1 ≤ ds.length) :
+    1 ≤ (trimSci o ds).length ∧ (trimSci o ds).length ≤ ds.length := by
+  rcases trimSci_cases o ds with h' | h' <;> rw [h'] <;> simp <;> omega
+
+theorem trimPos_length (o : WOpts) (leading : Nat) (ds : List Nat) (h : 1 ≤ ds.length) (hl : 1 ≤ leading) :
+    1 ≤ (trimPos o leading ds).length ∧ (trimPos o leading ds).length ≤ ds.length := by
+  rcases trimPos_cases o leading ds with h' | ⟨h', h2⟩ <;> rw [h'] <;> simp <;> omega
+
+theorem trimSci_one (o : WOpts) : trimSci o [1] = [1] := by unfold trimSci; split <;> rfl
+theorem trimPos_one (o : WOpts) (leading : Nat) (hl : 1 ≤ leading) : trimPos o leading [1] = [1] := by
+  unfold trimPos; rw [if_neg]; simp; omega
+
+@[simp] theorem trimSci_noMax (o : WOpts) (ds : List Nat) : trimSci { o with maxDigits := none } ds = trimSci o ds := rfl
+@[simp] theorem trimPos_noMax (o : WOpts) (l : Nat) (ds : List Nat) :
+    trimPos { o with maxDigits := none } l ds = trimPos o l ds := rfl
+
+/-- `roundSci`: between 1 and `min (len, max)` digits; a carry leaves the single digit 1 -/
+theorem roundSci_length (ds : List Nat) (o : WOpts) (hds : 1 ≤ ds.length) (hmx : o.maxDigits ≠ some 0) :
+    1 ≤ (roundSci ds o).1.length ∧ (roundSci ds o).1.length ≤ ds.length ∧
+    (∀ mx, o.maxDigits = some mx → (roundSci ds o).1.length ≤ mx) ∧
+    ((roundSci ds o).2 = true → (roundSci ds o).1 = [1]) ∧
+    (roundSci ds o).1.length ≤ (truncateAndRound ds o).1.length := by
+  obtain ⟨h1, h2, h3, h4⟩ := truncateAndRound_length ds o hds hmx
+  have ht := trimSci_length o (truncateAndRound ds o).1 h1
+  unfold roundSci
+  dsimp only
+  refine ⟨ht.1, by omega, fun mx hm => by have := h3 mx hm; omega, fun hc => ?_, ht.2⟩
+  rw [h4 hc]; exact trimSci_one o
+
+theorem roundPos_length (ds : List Nat) (e : Int) (o : WOpts) (hds : 1 ≤ ds.length) (hmx : o.maxDigits ≠ some 0) :
+    1 ≤ (roundPos ds e o).1.length ∧ (roundPos ds e o).1.length ≤ ds.length ∧
+    (∀ mx, o.maxDigits = some mx → (roundPos ds e o).1.length ≤ mx) ∧
+    ((roundPos ds e o).2 = true → (roundPos ds e o).1 = [1]) ∧
+    (roundPos ds e o).1.length ≤ (truncateAndRound ds o).1.length := by
+  obtain ⟨h1, h2, h3, h4⟩ := truncateAndRound_length ds o hds hmx
+  have ht := trimPos_length o (e.toNat + 1 + (if (truncateAndRound ds o).2 = true then 1 else 0))
+    (truncateAndRound ds o).1 h1 (by omega)
+  unfold roundPos
+  dsimp only
+  refine ⟨ht.1, by omega, fun mx hm => by have := h3 mx hm; omega, fun hc => ?_, ht.2⟩
+  rw [h4 hc]; exact trimPos_one o _ (by omega)
+
+@[simp] theorem roundSci_noMax (ds : List Nat) (o : WOpts) :
+    roundSci ds { o with maxDigits := none } = (trimSci o ds, false) := rfl
+@[simp] theorem roundPos_noMax (ds : List Nat) (e : Int) (o : WOpts) :
+    roundPos ds e { o with maxDigits := none } = (trimPos o (e.toNat + 1) ds, false) := rfl
+
 /-- two lists agree when they have the same length and the same `getD` everywhere below it -/
 theorem ext_getD (a b : List Nat) (hl : a.length = b.length) (h : ∀ i, i < a.length → a.getD i 0 = b.getD i 0) : a = b := by
   apply List.ext_getElem hl
